@@ -4,8 +4,8 @@
    This file contains only the property theorems (closed by [exact]) and their
    [Print Assumptions]; models are in Model/, proofs in Proofs/. *)
 From Coq Require Import List NArith Bool Permutation.
-From FS Require Import Sx Model.Stat Model.Varint Model.Codec Model.Framing Model.MetaBuffer
-  Proofs.VarintP Proofs.CodecP Proofs.FramingP.
+From FS Require Import Sx Model.Stat Model.Varint Model.Codec Model.CodecBound Model.Framing Model.MetaBuffer
+  Proofs.VarintP Proofs.CodecP Proofs.CodecBoundP Proofs.FramingP.
 From FSGen Require FromSource.
 Import ListNotations.
 Open Scope N_scope.
@@ -46,6 +46,70 @@ Theorem varint_roundtrip :
   forall n rest, n < two64 -> get_varint (put_varint n ++ rest) = Some (n, rest).
 Proof. exact get_put_varint. Qed.
 
+(* ---- arbitrary bytes --------------------------------------------------------------------- *)
+
+(* The decoders are total functions bytes -> option value ("a value or an error").  They
+   consume only their input: every field decoder returns, on success, a PROPER SUFFIX of what
+   it was given (so the loops advance and never read past the end), a retained unknown field
+   is exactly the consumed prefix, and the fuel the model gives its loops is never the reason
+   for an error: any fuel >= the input length yields the same result. *)
+Theorem decode_total_no_overread :
+  (forall l f r, dec_sfield l = Some (f, r) ->
+     (exists p, p <> [] /\ l = p ++ r) /\ (forall raw, f = SF_unknown raw -> l = raw ++ r)) /\
+  (forall l f r, dec_pfield l = Some (f, r) -> exists p, p <> [] /\ l = p ++ r) /\
+  (forall l r, skip l = Some r -> exists p, p <> [] /\ l = p ++ r) /\
+  (forall ins su b n, (length b <= n)%nat ->
+     fold_fields dec_sfield (apply_sfield ins) n b su = decode_stat_into ins su b) /\
+  (forall ins q b n, (length b <= n)%nat ->
+     fold_fields dec_pfield (apply_pfield ins) n b q = decode_packet_into ins q b) /\
+  (forall d l n, (length l <= n)%nat -> skip_loop n d l = skip_loop (length l) d l) /\
+  (forall stop cur k v n, (length cur <= n)%nat ->
+     dec_entry n stop cur k v = dec_entry (length cur) stop cur k v).
+Proof. exact decode_total_no_overread_proof. Qed.
+
+(* What a successful decode makes the receiver hold (path, linkname, xattr keys and values,
+   payload, retained unknown fields) is no larger than the input — PROVIDED no map entry's
+   key/value runs past the entry's declared length (no_overrun_*: executable predicate on
+   the input, Model/CodecBound.v). *)
+Theorem decoded_size_le_input :
+  (forall b su, decode_stat_u b = Some su -> no_overrun_stat b = true -> stat_alloc su <= len b) /\
+  (forall b x, decode_packet_u b = Some x -> no_overrun_packet b = true -> packet_alloc x <= len b).
+Proof. exact decoded_size_le_input_proof. Qed.
+
+(* The unrestricted statement
+     forall b su, decode_stat_u b = Some su -> stat_alloc su <= len b
+   is FALSE of the code: the entry loop checks key/value lengths against the end of the
+   message, then rewinds to the end of the entry and decodes the overrun bytes again.
+   Witness (corpus/C20/overrun.case, replayed on the real UnmarshalVT by every check):
+   16 bytes decode to 26, the 18-byte Packet wrapping them likewise.
+   Known finding map-entry-overrun-overallocates. *)
+Theorem decoded_size_le_input_refuted :
+  (exists b su, decode_stat_u b = Some su /\ len b = 16 /\ stat_alloc su = 26) /\
+  (exists b x, decode_packet_u b = Some x /\ len b = 18 /\ packet_alloc x = 26).
+Proof. exact decoded_size_le_input_refuted_proof. Qed.
+
+(* ---- generic protobuf runtime ------------------------------------------------------------ *)
+
+(* With valid UTF-8 in path, linkname and xattr keys the generic runtime (same wire format +
+   proto3 string validation) and the VT codec interoperate in both directions. *)
+Theorem generic_agrees :
+  (forall s, wf_stat s -> utf8_valid_stat s = true ->
+     generic_encode_stat s = Some (encode_stat s) /\
+     generic_decode_stat (encode_stat s) = Some s) /\
+  (forall p, wf_packet p -> utf8_valid_packet p = true ->
+     generic_encode_packet p = Some (encode_packet p) /\
+     generic_decode_packet (encode_packet p) = Some p).
+Proof. exact generic_agrees_proof. Qed.
+
+(* The unrestricted statement (forall wf s, generic_decode_stat (encode_stat s) = Some s) is
+   FALSE: a file name that is not UTF-8 ("a\xffb") round-trips through the VT codec and is
+   refused by the generic runtime when marshalling and when unmarshalling.
+   Known finding K2 non-utf8-string-generic-runtime (replayed by kind 2003 on every check). *)
+Theorem generic_agrees_refuted :
+  exists s, wf_stat s /\ decode_stat (encode_stat s) = Some s /\
+            generic_encode_stat s = None /\ generic_decode_stat (encode_stat s) = None.
+Proof. exact generic_agrees_refuted_proof. Qed.
+
 (* ---- framing -------------------------------------------------------------------------- *)
 
 (* Any sequence of sendable packets (any number, any sizes below 2^32 — hence also larger than
@@ -83,6 +147,11 @@ Print Assumptions packet_roundtrip.
 Print Assumptions size_correct.
 Print Assumptions canonical_any_order.
 Print Assumptions varint_roundtrip.
+Print Assumptions decode_total_no_overread.
+Print Assumptions decoded_size_le_input.
+Print Assumptions decoded_size_le_input_refuted.
+Print Assumptions generic_agrees.
+Print Assumptions generic_agrees_refuted.
 Print Assumptions recv_all_fragmentation.
 Print Assumptions recv_all_fragmentation_any_order.
 Print Assumptions buffer_is_concat.
@@ -127,6 +196,19 @@ Example ex_decoder_discriminates :
   decode_stat [12] = None /\                                         (* end-group *)
   decode_stat_u [16; 1; 16; 2; 125; 0; 0; 0; 0] =                     (* mode twice + fixed32 field 15 *)
     Some (set_mode empty_stat 2, [125; 0; 0; 0; 0]).
+Proof. vm_compute. repeat split; reflexivity. Qed.
+
+(* the no-overrun hypothesis holds of real encodings and fails exactly on the witness; the
+   UTF-8 hypothesis separates ex_stat (name ends in \xff) from its ASCII variant *)
+Example ex_overrun_predicate :
+  no_overrun_stat (encode_stat ex_stat) = true /\ no_overrun_packet (encode_packet ex_packet) = true /\
+  no_overrun_stat overrun_witness = false /\ no_overrun_packet (18 :: 16 :: overrun_witness) = false /\
+  option_map stat_alloc (decode_stat_u overrun_witness) = Some 26.
+Proof. vm_compute. repeat split; reflexivity. Qed.
+Example ex_generic :
+  utf8_valid_stat ex_stat = false /\ generic_decode_stat (encode_stat ex_stat) = None /\
+  (let s := set_path ex_stat [100; 195; 169] in
+   wf_stat s /\ utf8_valid_stat s = true /\ generic_decode_stat (encode_stat s) = Some s).
 Proof. vm_compute. repeat split; reflexivity. Qed.
 
 (* a concrete stream: packet, empty packet (zero-length frame), packet; read one byte at a
